@@ -31,6 +31,59 @@ def r1_error_macros(text):
     return text, fired
 
 
+def r13_debug_assert_eq(text):
+    """R13: `debug_assert_eq!(a, b)` => `debug_assert!(a == b)` (and _ne => !=): Verus has no
+    spec for core::panicking::assert_failed.  Drops the Debug formatting of the operands."""
+    fired = 0
+    while True:
+        stripped = strip_map(text)
+        m = re.search(r'\bdebug_assert_(eq|ne)!\s*\(', stripped)
+        if not m:
+            break
+        close = match_close(stripped, m.end() - 1, '(', ')')
+        inner_s = stripped[m.end():close]
+        inner = text[m.end():close]
+        # split at the first top-level comma
+        depth = 0
+        cut = None
+        for i, ch in enumerate(inner_s):
+            if ch in '([{':
+                depth += 1
+            elif ch in ')]}':
+                depth -= 1
+            elif ch == ',' and depth == 0:
+                cut = i
+                break
+        if cut is None:
+            raise ExtractError('unsupported debug_assert_eq form')
+        a = inner[:cut]
+        rest = inner[cut + 1:]
+        # second operand ends at next top-level comma (optional message) or end
+        depth = 0
+        cut2 = len(rest)
+        rs = inner_s[cut + 1:]
+        for i, ch in enumerate(rs):
+            if ch in '([{':
+                depth += 1
+            elif ch in ')]}':
+                depth -= 1
+            elif ch == ',' and depth == 0:
+                cut2 = i
+                break
+        b = rest[:cut2]
+        tail_nl = rest[cut2:].count('\n')
+        op = '==' if m.group(1) == 'eq' else '!='
+        rep = 'debug_assert!((%s) %s (%s)' % (a.rstrip(), op, b.strip()) + '\n' * (b.count('\n') - b.strip().count('\n') + tail_nl) + ')'
+        # keep newline count identical
+        old_nl = text.count('\n', m.start(), close + 1)
+        new_nl = rep.count('\n')
+        if new_nl < old_nl:
+            rep = rep[:-1] + '\n' * (old_nl - new_nl) + ')'
+        text = text[:m.start()] + rep + text[close + 1:]
+        fired += 1
+    return text, fired
+
+
 # (name, regex, replacement) -- applied with re.sub on the function text.
 # Regexes must not span newlines unless they re-emit them.
 SIMPLE_RULES = [
@@ -42,6 +95,8 @@ SIMPLE_RULES = [
     ('R4.enumerate_ref',
      r'\bfor \((\w+), &(\w+)\) in ([\w.]+)\.iter\(\)\.enumerate\(\) \{',
      r'for \1 in 0..\3.len() { let \2 = \3[\1];'),
+    # R4b: anonymous loop counter gets a name so that invariants can mention it
+    ('R4b.for_underscore', r'\bfor _ in ', r'for vx_i in '),
     # R6 std idioms without a Verus spec
     ('R6.size_of_u32', r'\bsize_of::<u32>\(\)', r'4usize'),
     ('R6.div_ceil', r'(\b[\w.]+)\.div_ceil\(([^()\n]+)\)', r'vx_div_ceil_u64(\1, \2)'),
@@ -53,6 +108,9 @@ def apply_global(text):
     text, n = r1_error_macros(text)
     if n:
         fired['R1.error_macros'] = n
+    text, n = r13_debug_assert_eq(text)
+    if n:
+        fired['R13.debug_assert_eq'] = n
     for name, rx, rep in SIMPLE_RULES:
         text, n = re.subn(rx, rep, text)
         if n:
